@@ -248,6 +248,7 @@ func runC09(c *core.Ctx) error {
 		return err
 	}
 	c09DslAnon(c)
+	c09UnionKeyWitness(c)
 	nSchemas := c.Pick(5000, 250000)
 	cfg := core.DefaultSchemaCfg
 	var batch []c09Case
@@ -852,4 +853,30 @@ func c09DslAnon(c *core.Ctx) {
 			}
 		}
 	}
+}
+
+// c09UnionKeyWitness replays the witness of the known finding "a typed map keyed by a (stringprefix) union, bound to the
+// Go type bindnode infers for it, compares its keys by pointer identity": a repeated key is accepted, and a lookup by
+// the key that was just stored answers "not found".
+func c09UnionKeyWitness(c *core.Ctx) {
+	ts, err := ipld.LoadSchemaBytes([]byte("type Strung string\ntype K union {\n | String \"a:\"\n | Strung \"b:\"\n} representation stringprefix\ntype M {K:Int}\n"))
+	if err != nil {
+		return
+	}
+	still := false
+	obs := ""
+	_, _, _ = core.Catch(func() error {
+		nb := bindnode.Prototype(nil, ts.TypeByName("M")).Representation().NewBuilder()
+		derr := dagjson.Decode(nb, strings.NewReader(`{"a:x":1,"a:x":2}`))
+		if derr != nil {
+			obs = "refused: " + derr.Error()
+			return nil
+		}
+		n := nb.Build()
+		_, lerr := n.LookupByString("a:x")
+		obs = fmt.Sprintf("accepted, Length()=%d, LookupByString(\"a:x\") error: %v", n.Length(), lerr)
+		still = n.Length() == 2
+		return nil
+	})
+	c.KnownWitness("C09/bindnode-union-keyed-map-keys-by-identity", still, `bindnode.Prototype(nil, M).Representation() fed {"a:x":1,"a:x":2} for M {K:Int}, K a stringprefix union: `+obs)
 }
